@@ -249,6 +249,8 @@ func (w *LiveWorld) Infra(pkg int) string {
 	ln("type HolderV struct { F func(...int) int }")
 	ln("var S int")
 	ln("var SA any")
+	ln("var SM map[string]int") // allocated by captureInst and left empty: an empty map is not a nil map
+	ln("var SS []int")
 	ln("var N int")
 	for _, id := range w.FV {
 		ln("var FV%d %s", id, w.ftype(id))
@@ -266,6 +268,8 @@ func (w *LiveWorld) Infra(pkg int) string {
 	}
 	// capture functions: instances first (bound methods need them)
 	ln("func captureInst() {")
+	ln("\tSM = map[string]int{}")
+	ln("\tSS = []int{}")
 	for t := 1; t <= w.Types; t++ {
 		ln("\tP%d = &T%d{A: %d, W1: 1000, W2: 2000, W3: 3000, W4: 4000, W5: 5000, W6: 6000, W7: 7000, W8: 8000, W9: 9000}", t, t, 10+t)
 	}
@@ -343,6 +347,12 @@ func (w *LiveWorld) Infra(pkg int) string {
 	}
 	ln("\thost.Obs(\"st\", 0, S)")
 	ln("\thost.Obs(\"sa\", 0, SA)")
+	ln("\tsnm := 0")
+	ln("\tif SM == nil { snm = 1 }")
+	ln("\thost.Obs(\"sn\", 0, snm)")
+	ln("\tsns := 0")
+	ln("\tif SS == nil { sns = 1 }")
+	ln("\thost.Obs(\"sn\", 1, sns)")
 	ln("\thost.Obs(\"n\", 0, N)")
 	for p := 1; p < len(w.Pkgs); p++ {
 		ln("\thost.Obs(\"n\", %d, %s.N)", p, w.pkgAlias(p))
